@@ -187,7 +187,7 @@ func runC06(c *core.Ctx) {
 			}
 		}
 		for _, ci := range callsIn(cl, core.CallsMethodNamed("resolveFlushedLocks", "")) {
-			cst, ok := argOf(ci, 3).(*ssa.Const)
+			cst, ok := asConst(argOf(ci, 3))
 			a.check(ok && cst.Value != nil && cst.Value.String() == "false", fname(cl)+" resolves flushed locks as rollback", ci, "", "cleanup resolves the flushed range with commit=true")
 		}
 		// the cleanup goroutine is waited for (cleanWg) and skipped only when the store is closed
@@ -223,7 +223,7 @@ func runC06(c *core.Ctx) {
 			a.viol(fname(rollback)+" resolves flushed locks", hit, "Rollback of a pipelined transaction that flushed something can finish without resolving the flushed locks: "+a.w(w))
 		}
 		for _, ci := range core.FindCalls(rollback, core.CallsMethodNamed("resolveFlushedLocks", "")) {
-			cst, ok := argOf(ci, 3).(*ssa.Const)
+			cst, ok := asConst(argOf(ci, 3))
 			a.check(ok && cst.Value != nil && cst.Value.String() == "false", fname(rollback)+" resolves as rollback", ci, "", "Rollback resolves the flushed range with commit=true")
 		}
 		// rollbackPessimisticLocks: keys = every key flagged locked; skipped only when nothing is locked
